@@ -273,11 +273,27 @@ def prop_c12(i):
         back = ConfigId.create_from_str(text)
     except Exception as e:
         return f"FAIL parsing the printed text {text!r} raises {type(e).__name__}"
-    if back != cid:
+    fields = lambda c: (c.customer, c.project, c.device, c.version, c.name)
+    if fields(back) != fields(cid) or back != cid or not (back == cid):
         return f"FAIL {text!r} parses to {back!r}, not {cid!r}"
     again = str(back)
     if again != text:
         return f"FAIL canonical text {text!r} prints as {again!r} after parsing"
+    # "equal" means what it says: an identifier that differs in one field is a different identifier, and nothing that is not an
+    # identifier equals one
+    base = list(fields(cid))
+    for k, name in enumerate(("customer", "project", "device", "version", "name")):
+        v = base[k]
+        other = list(base)
+        other[k] = ((v + 1) if v not in (9998, None) else 7) if k < 4 else ((v or "") + "x")
+        o = ConfigId(*other)
+        if fields(o) != fields(cid) and (o == cid or not (o != cid)):
+            return f"FAIL {o!r} and {cid!r} differ in {name} and compare equal"
+    for alien in (text, None, 5, fields(cid)):
+        if cid == alien or not (cid != alien):
+            return f"FAIL an identifier compares equal to {alien!r}"
+    if cid.is_device_settings is not (cid.device == 0):
+        return f"FAIL is_device_settings is {cid.is_device_settings!r} for device {cid.device!r}"
     return "ok"
 
 
